@@ -4,8 +4,8 @@ import common
 from common import tlc, tlc_ok, tlc_must_fail, build_driver, judge, ToolError, log, HARNESS
 import eng_eval
 
-TIERS = {"quick": dict(mc="MC_Sync.cfg", trials=40, threads=8, iters=150, lock=(16, 8, 81), crowd=(5, 128, 40), lex=(6, 12, 400), long=(3, 6, 40)),
-         "thorough": dict(mc="MC_Sync_thorough.cfg", trials=600, threads=16, iters=300, lock=(120, 8, 108), crowd=(30, 160, 40), lex=(100, 16, 600), long=(20, 8, 100))}
+TIERS = {"quick": dict(mc="MC_Sync.cfg", trials=40, threads=8, iters=150, lock=(16, 8, 81), crowd=(5, 128, 40), lex=(6, 12, 400), long=(3, 6, 40), mix=(4, 8, 60)),
+         "thorough": dict(mc="MC_Sync_thorough.cfg", trials=600, threads=16, iters=300, lock=(120, 8, 108), crowd=(30, 160, 40), lex=(100, 16, 600), long=(20, 8, 100), mix=(30, 12, 100))}
 
 
 def distinct_events(events):
@@ -47,6 +47,38 @@ def long_pool(path):
         cases.append(("max_by(@, &abs(@))", nums))
         cases.append(("sort_by(@, &abs(@))", nums))
         cases.append(("@[?abs(@) > `100`]", nums))
+    with open(path, "w") as f:
+        for t, d in cases:
+            f.write(json.dumps({"text": cps(t), "doc": to_tagged(d)}) + "\n")
+
+
+def mix_pool(path, part="all"):
+    """different KINDS of work on one runtime at the same instant: every sorting / extreme function on long arrays with number keys, ASCII
+    string keys and non-ASCII string keys; to_number on strings that hold JSON document text; and meanwhile compiles of JSON literals and
+    re-reads of documents from text.  Results are sampled (every 61st id) so that an outcome is small; judged for schedule independence
+    against a single-threaded trial of the same pool."""
+    from common import to_tagged, cps
+    n = 1500
+    recs = [{"id": i, "n": (i * 7919) % n, "s": "\u043a\u043b\u044e\u0447-%06d" % ((i * 104729) % n), "a": "key-%06d" % ((i * 613) % n),
+             "e": "cl\u00e9-%06d" % ((i * 31) % n)} for i in range(n)]
+    cases = []
+    for t in ("sort_by(@, &n)[*].id | [::61]", "sort_by(@, &s)[*].id | [::61]", "sort_by(@, &a)[*].id | [::61]", "sort_by(@, &e)[*].id | [::61]", "max_by(@, &s).id", "min_by(@, &n).id",
+              "max_by(@, &a).id", "min_by(@, &e).id", "sort(@[*].s) | [::61]", "sort(@[*].n) | [::61]", "max(@[*].s)", "min(@[*].a)", "max(@[*].n)", "length(join(',', @[*].s))",
+              "sum(map(&to_number(to_string(n)), @))", "contains(@[*].s, '\u043a\u043b\u044e\u0447-000123')", "reverse(@)[0].id", "length(to_string(@))",
+              "sort_by(@, &to_string(n))[*].id | [::61]", "@[?starts_with(s, '\u043a\u043b\u044e\u0447-0001')].id | [::7]", "@[?ends_with(e, '7')].id | [::29]"):
+        cases.append((t, recs))
+    jdoc = {"j": json.dumps(list(range(2000))), "o": ' {"a":1}', "n": "12", "w": " 4", "b": "[1", "z": "-0", "arr": ["[1]", "2", "{}", "x"]}
+    for t in ("to_number(j)", "to_number(o)", "to_number(n)", "to_number(w)", "[to_number(j), to_number(n)]", "to_number(b)", "to_number(z)", "map(&to_number(@), arr)",
+              "to_number(to_string(`[1, 2]`))"):
+        cases.append((t, jdoc))
+    vdoc = {"a": [1, 2, 3], "b": {"c": [4, 5], "d": "x"}, "e": [{"f": 1}, {"f": 2}]}
+    for t in ("`[1, 2, 3]`", '`{"k": [true, null], "m": {"n": 1}}`', "e[*].f", "[a[1], b.c, length(`[1, 2, 3, 4]`)]", 'to_array(`{"a": [1]}`)', '`"s"`', "@", "b", "[a, `[[1], {\"z\": []}]`]",
+              "a[?@ == `2`]", "merge(b, `{\"c\": {\"x\": [1]}}`)", "keys(@)", "values(b)"):
+        cases.append((t, vdoc))
+    if part == "sorting":          # only the long-array cases: two threads are inside the same function with different kinds of keys most of the time
+        cases = [c for c in cases if c[1] is recs]
+    elif part == "modes":          # only the short ones: to_number on document text against literal compiles and re-read documents
+        cases = [c for c in cases if c[1] is not recs]
     with open(path, "w") as f:
         for t, d in cases:
             f.write(json.dumps({"text": cps(t), "doc": to_tagged(d)}) + "\n")
@@ -228,6 +260,34 @@ def run(prop, tier, seed, work, ev):
                   % (n, th, total, distinct), stats, rej, dpath, nsamples=1)
     rejects += rej
     rejects += schedule_dependent(gevents, work, ev, "long arrays")
+    # different kinds of work on one runtime at once (per-call state kept on a shared object, a mode switched on for the duration of a call):
+    # number keys / ASCII keys / non-ASCII keys in the sorting functions, to_number on document text, compiles of JSON literals, documents
+    # re-read from text -- one single-threaded trial gives the sequential outcomes, every threaded trial must give the same
+    for part, scale in (("sorting", 1), ("modes", 3)):
+        mp = work.path("mix.%s.cases" % part)
+        mix_pool(mp, part)
+        n, th, iters = t["mix"]
+        mevents = work.path("mix.%s.obs" % part)
+        trials("sync-trial", n, th, iters * scale, mp, mevents)
+        seqev = work.path("mixseq.%s.obs" % part)
+        trials("sync-trial", 1, 1, 6 * common.count_lines(mp), mp, seqev)
+        with open(mevents, "a") as f:
+            for line in open(seqev):
+                f.write(line)
+        dpath, total, distinct = distinct_events(mevents)
+        ev.extra["thread_events_total"] = ev.extra.get("thread_events_total", 0) + total
+        small = work.path("mix.%s.small" % part)
+        with open(small, "w") as f:
+            for line in open(dpath):
+                if len(line) < 20000:
+                    f.write(line)
+        if common.count_lines(small):
+            stats, rej = judge("tv/TV_Eval.tla", None, small, work, timeout=3000)
+            ev.add_judged("mixed kinds of work at once, %s (sorting functions on number / ASCII / non-ASCII keys; to_number on document text, literal compiles, re-read "
+                          "documents): %d trials x %d threads (%d events, %d distinct; those on small documents judged by value)" % (part, n, th, total, distinct),
+                          stats, rej, small, nsamples=1)
+            rejects += rej
+        rejects += schedule_dependent(mevents, work, ev, "mixed kinds of work, %s (threaded trials and one single-threaded trial)" % part)
     # a crowd: far more threads than cores, each inside many nested calls at once (anything accounted per runtime / per process
     # instead of per search shows as a divergent result)
     cp = work.path("crowd.cases")
